@@ -2,6 +2,7 @@ package server
 
 import (
 	"net/netip"
+	"time"
 
 	"github.com/osrg/gobgp/v4/internal/pkg/table"
 	"github.com/osrg/gobgp/v4/pkg/packet/bgp"
@@ -126,4 +127,109 @@ func VH_c12_gr_cycle() {
 	} else {
 		vReach("waiting")
 	}
+}
+
+// C12 (long-lived GR): after the restart timer expires without re-establishment, routes of the
+// families covered by long-lived graceful restart are kept carrying LLGR_STALE (routes marked
+// NO_LLGR are dropped, other families go at once), they are only advertised to LLGR-capable peers,
+// and they disappear when the per-family long-lived timer expires (virtual clock; the expiry runs
+// through the real management loop).
+func VH_c12_llgr() {
+	fams := []bgp.Family{bgp.RF_IPv4_UC, bgp.RF_IPv6_UC}
+	v4 := []bgp.Family{bgp.RF_IPv4_UC}
+	s := vServer(65000, fams)
+	go s.Serve()
+	c := vNeighbor(2, 65001, 65000, fams)
+	c.GracefulRestart.Config.Enabled, c.GracefulRestart.Config.RestartTime = true, 120
+	c.GracefulRestart.Config.LongLivedEnabled = true
+	c.Timers.Config.HoldTime, c.Timers.Config.KeepaliveInterval = 90, 30
+	llgr6 := vBool("ipv6_in_llgr_capability")
+	llgrTime := uint32(vInt("llgr_time", 1, 2))
+	gtuples := []*bgp.CapGracefulRestartTuple{}
+	ltuples := []*bgp.CapLongLivedGracefulRestartTuple{}
+	for i, f := range fams {
+		c.AfiSafis[i].MpGracefulRestart.Config.Enabled = true
+		c.AfiSafis[i].LongLivedGracefulRestart.Config.Enabled = true
+		gtuples = append(gtuples, bgp.NewCapGracefulRestartTuple(f, true))
+		if i == 0 || llgr6 {
+			ltuples = append(ltuples, bgp.NewCapLongLivedGracefulRestartTuple(f, true, llgrTime))
+		}
+	}
+	p := newPeer(&s.bgpConfig.Global, c, bgp.BGP_FSM_OPENCONFIRM, s.globalRib, s.policy, s.logger)
+	s.neighborMap[c.State.NeighborAddress] = p
+	caps := []bgp.ParameterCapabilityInterface{bgp.NewCapMultiProtocol(bgp.RF_IPv4_UC), bgp.NewCapMultiProtocol(bgp.RF_IPv6_UC), bgp.NewCapFourOctetASNumber(65001),
+		bgp.NewCapGracefulRestart(false, true, 120, gtuples), bgp.NewCapLongLivedGracefulRestart(ltuples)}
+	open, _ := bgp.NewBGPOpenMessage(65001, 90, vAddr4(2, 2, 2, 2), []bgp.OptionParameterInterface{bgp.NewOptionParameterCapability(caps)})
+	p.fsm.conn, p.fsm.recvOpen = newVConn(nil, true), open
+	// two observers: one LLGR-capable for IPv4, one not
+	tc := vNeighbor(4, 65003, 65000, v4)
+	tc.GracefulRestart.Config.LongLivedEnabled = true
+	tc.AfiSafis[0].LongLivedGracefulRestart.State.Enabled = true
+	capable := vEstablished(s, tc, v4)
+	plain := vEstablished(s, vNeighbor(5, 65004, 65000, v4), v4)
+	views := map[*peer]map[string]*table.Path{capable: {}, plain: {}}
+	drain := func() {
+		for t, view := range views {
+			for t.fsm.outgoingCh.Len() > 0 {
+				m := (<-t.fsm.outgoingCh.Out()).(*fsmOutgoingMsg)
+				for _, q := range m.Paths {
+					if q.IsWithdraw {
+						delete(view, q.GetPrefix())
+					} else {
+						view[q.GetPrefix()] = q
+					}
+				}
+			}
+		}
+		for p.fsm.outgoingCh.Len() > 0 {
+			<-p.fsm.outgoingCh.Out()
+		}
+	}
+
+	vTransition(s, p, bgp.BGP_FSM_ESTABLISHED, fsmOpenMsgNegotiated)
+	r4, r4n := vPrefix4(10, 1, 0, 0, 16), vPrefix4(10, 2, 0, 0, 16)
+	r6, _ := bgp.NewIPAddrPrefix(netip.PrefixFrom(netip.AddrFrom16([16]byte{0x20, 0x01, 0x0d, 0xb8, 1}), 48))
+	vRecv(s, p, vUpdate4(r4, false, []uint32{65001}, vAddr4(10, 0, 0, 2)), 3000)
+	noLLGR := vUpdate4(r4n, false, []uint32{65001}, vAddr4(10, 0, 0, 2))
+	u := noLLGR.Body.(*bgp.BGPUpdate)
+	u.PathAttributes = append(u.PathAttributes, bgp.NewPathAttributeCommunities([]uint32{uint32(bgp.COMMUNITY_NO_LLGR)}))
+	vRecv(s, p, noLLGR, 3001)
+	vRecv(s, p, vUpdate6(r6, false, []uint32{65001}), 3002)
+	drain()
+	vAssert(len(views[plain]) == 2 && len(views[capable]) == 2, "the IPv4 routes of the first session were not advertised")
+
+	vTransition(s, p, bgp.BGP_FSM_IDLE, fsmGracefulRestart)
+	drain()
+	// the restart timer expires without re-establishment: long-lived phase
+	vTransition(s, p, bgp.BGP_FSM_IDLE, fsmRestartTimerExpired)
+	drain()
+	loc := s.globalRib.GetPathList(table.GLOBAL_RIB_NAME, 0, fams)
+	var kept4, keptNo, kept6 *table.Path
+	for _, q := range loc {
+		switch q.GetPrefix() {
+		case r4.String():
+			kept4 = q
+		case r4n.String():
+			keptNo = q
+		default:
+			kept6 = q
+		}
+	}
+	vAssert(kept4 != nil && kept4.IsLLGRStale(), "a route of a long-lived GR family is not kept carrying LLGR_STALE")
+	vAssert(keptNo == nil, "a route marked NO_LLGR survives into the long-lived phase")
+	vAssert((kept6 != nil) == llgr6, "IPv6 routes are not kept exactly when the peer listed IPv6 in its long-lived GR capability")
+	_, plainHas := views[plain][r4.String()]
+	cv, capHas := views[capable][r4.String()]
+	vAssert(!plainHas, "an LLGR_STALE route stays advertised to a peer without the long-lived GR capability")
+	vAssert(capHas && cv.IsLLGRStale(), "an LLGR-capable peer is not told the route with LLGR_STALE")
+	vAssert(len(views[plain]) == 0 && len(views[capable]) == 1, "routes that were dropped stay advertised")
+
+	// silence until the long-lived timer has run out
+	<-time.After(time.Duration(llgrTime+1) * time.Second)
+	drain()
+	loc = s.globalRib.GetPathList(table.GLOBAL_RIB_NAME, 0, fams)
+	vAssert(len(loc) == 0 && p.adjRibIn.Count(fams) == 0, "LLGR_STALE routes survive the expiry of the long-lived timer")
+	vAssert(len(views[capable]) == 0, "an LLGR_STALE route stays advertised after the long-lived timer expired")
+	vAssert(!p.fsm.pConf.ReadOnly().GracefulRestart.State.PeerRestarting, "the peer is still reported as restarting after every long-lived timer expired")
+	vReach("end")
 }
